@@ -163,7 +163,14 @@ def instrument_cmd(job, a, b):
     cmd = ["goto-instrument", "--dfcc", job.harness]
     for f in job.enforce:
         cmd += ["--enforce-contract", f]
+    # a callee that the (changed) code no longer references has no symbol and makes goto-instrument abort; there is
+    # nothing to replace then, and the caller's postcondition over that callee's record decides the job
+    p = subprocess.run(["goto-instrument", "--show-symbol-table", a], stdout=subprocess.PIPE, stderr=subprocess.DEVNULL)
+    syms = set(re.findall(r"^Symbol\.*: (\S+)$", p.stdout.decode("utf-8", "replace"), re.M))
+    job.replace_missing = [g for g in job.replace if syms and g not in syms]
     for g in job.replace:
+        if g in job.replace_missing:
+            continue
         cmd += ["--replace-call-with-contract", g]
     if job.loops:
         cmd += ["--apply-loop-contracts"]
@@ -203,6 +210,10 @@ def cbmc_cmd(job, gb, trace=False, prop=None):
         cmd += ["--unwindset", ",".join(us), "--no-unwinding-assertions" if job.partial else "--unwinding-assertions"]
     if job.unwind:
         cmd += ["--unwind", job.unwind, "--unwinding-assertions"]
+    elif not job.partial:
+        # safety net for loops the job does not name (e.g. a loop introduced by a change to the code): without a bound
+        # symbolic execution of a data-dependent loop never ends.  A failed unwinding assertion is reported UNDECIDED.
+        cmd += ["--unwind", os.environ.get("VERIF_DEFAULT_UNWIND", "260"), "--unwinding-assertions"]
     if job.solver in ("z3", "cvc5"):
         cmd += ["--" + job.solver]
     elif job.solver:
